@@ -82,6 +82,25 @@ spec fn parsed_compact(s: Seq<char>, e: SDJWTCommon) -> bool {
         && e.unverified_input_key_binding_jwt is Some && e.unverified_input_key_binding_jwt->Some_0@ == p.last()
         && split_spec(p[0], "."@).len() >= 2 && payload_json(split_spec(p[0], "."@)[1]) == Some(e.unverified_input_sd_jwt_payload->Some_0@)
 }
+// the only reasons for which parsing may fail: all of them functions of the input text
+spec fn unparsable_compact(s: Seq<char>) -> bool {
+    let p = split_spec(s, "~"@);
+    p.len() < 2 || split_spec(p[0], "."@).len() < 2 || payload_json(split_spec(p[0], "."@)[1]) is None
+}
+spec fn unparsable_json(s: Seq<char>) -> bool {
+    json_parse(utf8(s)) is None || !is_envelope(json_parse(utf8(s))->Some_0)
+        || (exists|x: SDJWTJson| #![trigger envelope_of(json_parse(utf8(s))->Some_0, x)] envelope_of(json_parse(utf8(s))->Some_0, x) && payload_json(x.payload@) is None)
+}
+proof fn lemma_dmap_none_prefix(ds: Seq<Seq<char>>, n: int)
+    requires 0 <= n <= ds.len(), dmap_of(ds.take(n)) is None
+    ensures dmap_of(ds) is None
+    decreases ds.len() - n
+{
+    if n == ds.len() { assert(ds.take(n) =~= ds); } else {
+        assert(ds.take(n + 1).drop_last() =~= ds.take(n));
+        lemma_dmap_none_prefix(ds, n + 1);
+    }
+}
 spec fn parsed_json(s: Seq<char>, e: SDJWTCommon) -> bool {
     exists|x: SDJWTJson| #![trigger envelope_of(json_parse(utf8(s))->Some_0, x)]
         json_parse(utf8(s)) is Some && envelope_of(json_parse(utf8(s))->Some_0, x)
